@@ -98,6 +98,45 @@ func parserInputs(o *propOpts, each func(e *entry, s string, origin string)) {
 			}
 		}
 	}
+	// systematic keyword substitutions: an identifier replaced by each of the reserved words, at up to two positions of every
+	// distinct token context (previous token, next token kind) of the golden inputs — "a name that happens to be a keyword" at
+	// every kind of identifier position (hint keys, option names, aliases, column names, field names, ...)
+	kwCtx := map[string]int{}
+	for _, cf := range files {
+		if cf.Bad {
+			continue
+		}
+		toks, ok := tokenSpans(cf.Text)
+		if !ok {
+			continue
+		}
+		e := entryByName(entryForDir(cf.Dir))
+		for i := 0; i+1 < len(toks); i++ {
+			t := toks[i]
+			if t.Kind != token.TokenIdent {
+				continue
+			}
+			prev := "^"
+			if i > 0 {
+				prev = strings.ToUpper(toks[i-1].Raw)
+				if toks[i-1].Kind == token.TokenIdent && !gIsKeywordLike(prev) {
+					prev = "<ident>"
+				}
+			}
+			key := prev + "\x00" + string(toks[i+1].Kind)
+			if kwCtx[key] >= 2 {
+				continue
+			}
+			kwCtx[key]++
+			for _, kw := range token.Keywords {
+				edits++
+				if o.tier != "thorough" && edits%4 != int(o.seed%4) {
+					continue
+				}
+				each(e, cf.Text[:t.Pos]+string(kw)+cf.Text[t.End:], "edit-keyword")
+			}
+		}
+	}
 	nmut := 15000
 	if o.tier == "thorough" {
 		nmut = 120000
